@@ -432,9 +432,18 @@ def cfgHandoffTry : Config :=
 /-- LEGACY: the regression scenario with the pre-repair forwarder (not tied to current code) -/
 def cfgLeakSeqLegacy : Config := { cfgLeakSeq with fwdStop := true }
 
+/-- the Dekker window of unlock() with a prober: T0 holds and calls unlock() while T1's start() of
+    waiter 0 is in progress (try_lock fails, push_back lands between T0's pop_front and its
+    `queue_.empty()` re-check, so T0 must RE-ACQUIRE `locked_` before it hands over); T2 probes with
+    try_lock once T1's start() has returned, i.e. possibly while waiter 0 is in its critical section. -/
+def cfgUnlockRaceTry : Config :=
+  { scripts := [[.tryHold 0, .release 0, .waitAll, .tryCs 9], [.waitIp 0 1, .lock 0], [.waitIp 1 2, .tryCs 2]],
+    nw := 1, deferred := false }
+
 def configs : List (String × Config) :=
   [("v2_handoff", cfgHandoff), ("v2_handoff_stop", cfgHandoffStop), ("v2_leak_seq", cfgLeakSeq),
    ("v2_race_inline", cfgRaceInline), ("v2_fifo3", cfgFifo3), ("v2_inline_stop", cfgInlineStop),
-   ("v2_cancel_first", cfgCancelFirst), ("v2_race_try", cfgRaceTry), ("v2_handoff_try", cfgHandoffTry)]
+   ("v2_cancel_first", cfgCancelFirst), ("v2_race_try", cfgRaceTry), ("v2_handoff_try", cfgHandoffTry),
+   ("v2_unlock_race_try", cfgUnlockRaceTry)]
 
 end Unifex.Proto.MutexV2
